@@ -155,6 +155,29 @@ def run_purity_model(req):
     ok1, s1, p1 = run()
     ok2, s2, p2 = run()
     bad = []
+    if model != "semi" and len(feats) >= n + 2 * nq:
+        def fitted():
+            X = np.array([[feats[i]] for i in range(n)], dtype=float)
+            Y = np.array(cfg["labels"], dtype=int)
+            if model == "sup":
+                o = SupervisedOPF(distance=metric)
+                o.fit(X, Y)
+            elif model == "knn":
+                o = KNNSupervisedOPF(max_k=1, distance=metric)
+                o.fit(X, Y, X, Y)
+            else:
+                o = UnsupervisedOPF(min_k=1, max_k=1, distance=metric)
+                o.fit(X, Y)
+            return o
+        flat = lambda p: [list(map(int, t)) for t in p] if isinstance(p, tuple) else [int(t) for t in p]
+        Q1 = lambda: np.array([[feats[n + i]] for i in range(nq)], dtype=float)
+        Q2 = lambda: np.array([[feats[n + nq + i]] for i in range(nq)], dtype=float)
+        used = fitted()
+        used.predict(Q1())
+        a = flat(used.predict(Q2()))
+        b = flat(fitted().predict(Q2()))
+        if a != b:
+            bad.append("prediction-independent-of-earlier-predict-calls")
     if not ok1:
         bad.append("write-leaves-caller-data-unchanged")
     if s1 != s2 or p1 != p2:
